@@ -120,6 +120,16 @@ def read_all(fmt, data, d, tag):
     for lazy in (True, False):
         res["lazy" if lazy else "eager"] = outcome(lambda: project(fmt, bnp.open(path, lazy=lazy, **kw).read()))
     res["chunks"] = outcome(lambda: [r for c in bnp.open(path, **kw).read_chunks(min_chunk_size=max(len(data) // 2, 1)) for r in project(fmt, c)])
+    # the entries selected in another order before any column is parsed (expected: the same rows, reversed), and the whole table
+    # parsed after a look at its first rows (a column parsed for a slice must not disturb the parse of the whole)
+    for lazy in (True, False):
+        res[("lazy" if lazy else "eager") + "-reversed"] = outcome(lambda: project(fmt, bnp.open(path, lazy=lazy, **kw).read()[::-1]))
+
+    def peek_then_all():
+        t = bnp.open(path, **kw).read()
+        project(fmt, t[:max(1, len(t) // 2)])
+        return project(fmt, t)
+    res["lazy-after-peek"] = outcome(peek_then_all)
     os.remove(path)
     return res
 
@@ -136,8 +146,14 @@ def read_vcf_typed(data, d, tag):
         f.write(data)
     res = {}
 
-    def typed(lazy):
+    def typed(lazy, variant=""):
         t = bnp.open(path, lazy=lazy).read()
+        if variant == "reversed":
+            t = t[::-1]
+        elif variant == "after-peek":
+            head = t[:max(1, len(t) // 2)]
+            for key, typ in INFO_KEYS:
+                getattr(head.info, key).tolist()
         info = t.info
         cols = {}
         for key, typ in INFO_KEYS:
@@ -147,6 +163,8 @@ def read_vcf_typed(data, d, tag):
         n = len(t)
         out = []
         base = project("vcf", bnp.open(path, lazy=lazy, buffer_type=bnp.io.vcf_buffers.VCFWithInfoAsStringBuffer).read())
+        if variant == "reversed":
+            base = base[::-1]
         for i in range(n):
             row = []
             for key, typ in INFO_KEYS:
@@ -165,6 +183,8 @@ def read_vcf_typed(data, d, tag):
         return out
     for lazy in (True, False):
         res["info-" + ("lazy" if lazy else "eager")] = outcome(typed, lazy)
+        res["info-" + ("lazy" if lazy else "eager") + "-reversed"] = outcome(typed, lazy, "reversed")
+        res["info-" + ("lazy" if lazy else "eager") + "-after-peek"] = outcome(typed, lazy, "after-peek")
     res["genotype-strings"] = outcome(lambda: [[list(b) for b in row] for row in bnp.open(path, buffer_type=VCFBuffer2).read().genotype.raw().tolist()])
     def matrix():
         txt = bnp.open(path, buffer_type=VCFMatrixBuffer).read().genotypes.tolist()
@@ -185,7 +205,7 @@ def check_vcf_typed(v):
         ok = o[0] == "ok"
         if ok and mode.startswith("info"):
             ok = len(o[1]) == len(exp)
-            for g, e in zip(o[1] if ok else [], exp):
+            for g, e in zip(o[1] if ok else [], exp[::-1] if mode.endswith("-reversed") else exp):
                 if not _same("vcf", [e["base"][:7] + [[]]], [g["base"][:7] + [[]]]):      # the INFO text itself is compared through its typed keys
                     ok = False
                 for (key, typ), ge, ee in zip(INFO_KEYS, g["info"], e["info"]):
@@ -217,7 +237,7 @@ def check_vector(v):
     nt = [json.dumps(v["text"])] if (len(exp) > 1 and widths) or v["crlf"] or not v["finalnl"] or v["header"] or v["ncomments"] else []
     for mode, o in res.items():
         n += 1
-        if o[0] != "ok" or not _same(fmt, exp, o[1]):
+        if o[0] != "ok" or not _same(fmt, exp[::-1] if mode.endswith("-reversed") else exp, o[1]):
             kind = "raises" if o[0] != "ok" else ("count" if len(o[1]) != len(exp) else "values")
             mixed_dot = fmt == "bed6dot" or False
             bad.append({"what": "entries read from a well-formed %s file differ from what the format assigns to its text" % fmt,
@@ -324,6 +344,8 @@ def record_trace(job):
     text = _gen_file(rng, fmt)
     data = text.encode("latin-1")
     res = read_all(fmt, data, d, "B%d_%d" % (os.getpid(), tid))
+    # rows of a reversed selection are sent to TLC in file order (TLC compares with Parse(text))
+    res = {m: (("ok", o[1][::-1]) if m.endswith("-reversed") and o[0] == "ok" else o) for m, o in res.items()}
     return {"tid": tid, "fmt": fmt, "text": list(data), "res": res}
 
 
